@@ -220,10 +220,13 @@ def verdict(b):
     _, _, ip, ua, _ = req_fields(b)
     idle = b.t - la(f)
     se = cfg["sessionExpiry"]
-    if se == 0 or idle > se:
+    # "at least SessionExpiry has passed": equality counts. An instant read back from a JSON record lost its sub-second part, so
+    # there equality of the RECORDED idle time does not tell whether the true one reached the limit.
+    exact = where == "cache" or a.codec != "json"
+    if se == 0 or idle > se or (idle == se and exact):
         return "refuse", "stale"
     if idle == se:
-        return "unspecified", "idle == SessionExpiry"
+        return "unspecified", "idle == SessionExpiry up to the codec's granularity"
     an = ip_anomaly(cfg["acceptIP"], _unq(f["ip"]), ip)
     if an is None:
         return "unspecified", "address not canonical"
@@ -613,28 +616,45 @@ def rotation_check(b, out, pre_obj, pre_id, what):
 
 def mon_C04(blocks):
     out = []
+    born = {}   # id -> instant of the call in which it was first seen (minted): the age of an ID is counted from there,
+    #             whatever the record's creation field says
+
+    def note_births(b):
+        for src in (b.store, b.cache):
+            for i in (src or {}):
+                born.setdefault(i, b.t)
+
     for b in blocks:
         a = b.ann
         k = b.tok[0]
         if b.faulted or b.ret == "panic":
+            note_births(b)
             continue
         if k == "req":
             d, why = verdict(b)
             if d != "serve":
+                note_births(b)
                 continue
             v = b.inp
             f, where = found_pre(b, v)
+            exact = where == "cache" or a.codec != "json"
             age = b.t - cr(f)
+            if v in born and born[v] >= cr(f) and b.t - born[v] < age - gran(a.codec):
+                # the record claims an older creation than the id's first appearance: the id is as old as its appearance
+                age = b.t - born[v]
+                exact = True
             ide = a.cfg["idExpiry"]
             if b.ret != "sess" or not b.ss:
                 if ide != 0 and age < ide:
                     out.append(Violation(b.idx, "an id younger than SessionIDExpiry stopped working: %s" % b.ret))
+                note_births(b)
                 continue  # otherwise continuity is C01's
-            if ide == 0 or age > ide:
+            if ide == 0 or age > ide or (age == ide and exact):
+                # "at least SessionIDExpiry old": equality counts where the recorded creation time is exact
                 rotation_check(b, out, f, v, "rotation of a due id")
                 if b.ss and (b.ss["us"] == "-") != (f["us"] == "-"):
                     out.append(Violation(b.idx, "rotation changed the user"))
-            elif age < ide:
+            elif age < ide - (0 if exact else gran(a.codec)):
                 if _unq(b.ss["id"]) != v or b.rng != 0 or b.cks:
                     out.append(Violation(b.idx, "an id younger than SessionIDExpiry was changed or a cookie was set"))
                 if v not in b.store and v not in b.cache:
@@ -645,6 +665,7 @@ def mon_C04(blocks):
             if pre is None:
                 continue
             rotation_check(b, out, pre if b.tok[1] == "regen" else None, _unq(pre["id"]), b.tok[1])
+        note_births(b)
     return out
 
 
@@ -730,7 +751,7 @@ def mon_C05(blocks):
                 d = b.t - t0
                 if d > cfg["grace"] + gran(a.codec) and b.ret == "b0":
                     out.append(Violation(b.idx, "Expired() false for a replaced-id record %d after replacement (grace %d)" % (d, cfg["grace"])))
-                if d < cfg["grace"] and b.ret == "b1":
+                if d < cfg["grace"] - gran(a.codec) and b.ret == "b1":  # a JSON record's instants lost their sub-second part
                     out.append(Violation(b.idx, "Expired() true for a replaced-id record only %d after replacement (grace %d)" % (d, cfg["grace"])))
 
     fold(blocks, visit)
@@ -1106,6 +1127,20 @@ def mon_C11(blocks):
         if not success:
             limbo = True
             last_failed = b.line if k == "h" else None
+        if k == "req" and b.ret == "nil" and not limbo and failed:
+            # a store failure must surface as an error, not as a quiet "no session": (a) the presented id names a session the
+            # request should have been given, (b) the request asked for a new session if need be (createIfNew), so that it
+            # ends with a session or an error. (Failed flushes of other cached sessions on the way are ignored by design, but
+            # then the request still gets its session.)
+            d, why = verdict(b)
+            if d in ("serve", "serve-ref"):
+                out.append(Violation(b.idx, "%s got no session and no error although %s failed (the presented id is valid: %s)" %
+                                     (b.line, " ".join(failed[0][:2]), why)))
+                continue
+            if b.tok[-1] == "1":
+                out.append(Violation(b.idx, "%s (createIfNew) got neither a session nor an error although %s failed" %
+                                     (b.line, " ".join(failed[0][:2]))))
+                continue
         if success and not limbo and any(e[0] == "save" for e in failed):
             getdel = k == "h" and b.tok[1] == "getdel"
             if b.ss and not getdel and (k == "req" or (k == "h" and b.tok[1] in MUTATORS)):
